@@ -85,7 +85,7 @@ impl Decl {
             return e(if captured { "docs" } else { "docs-captured-when-off" }, format!("type docs {:?}, expected {:?}", ty.docs, want_docs(self.docs)));
         }
         st.docs_lines += ty.docs.len() as u64;
-        let mut fields = |got: &[Field<MetaForm>], want: &[FieldM], at: &str, st: &mut Stats| -> Result<(), (String, String)> {
+        let fields = |got: &[Field<MetaForm>], want: &[FieldM], at: &str, st: &mut Stats| -> Result<(), (String, String)> {
             if got.len() != want.len() {
                 return e0("members", format!("{}: {} members listed, declaration has {} (after skip / PhantomData)", at, got.len(), want.len()));
             }
